@@ -79,7 +79,7 @@ PROPS = {
     "C10": P("C10", ["LSProofs.Props.C10"], ["kind", "ptr", "ev"],
              [fam("statics", n=300), ENUM_Q], [fam("statics", n=3000), ENUM_T, RANDOM_T], G10,
              search=[fam("statics", n=3000), fam("random", n=30000)]),
-    "C11": P("C11", ["LSProofs.Props.C11"], ["cap", "len", "ptr", "ev", "rc"],
+    "C11": P("C11", ["LSProofs.Props.C11", "LSProofs.Resource"], ["cap", "len", "ptr", "ev", "rc"],
              [fam("capacity", n=300), RANDOM_Q], [fam("capacity", n=3000), RANDOM_T, ENUM_T], G11,
              search=[fam("capacity", n=3000), fam("random", n=30000)]),
     "C12": P("C12", ["LSProofs.Props.C12"], ["cap"],
